@@ -38,35 +38,6 @@ def lookup_failed(fn, atom, pol, container):
     return (c[0] == '==') == bool(pol)
 
 
-def header_lines_kept_rule(run):
-    """parse_request() keeps every header line of the request: a field that appears more than once (Cookie, Accept,
-    X-Forwarded-For ...) is folded or kept side by side, never replaced by the later line - the proxy regenerates the
-    header block from this map, so an overwritten line never reaches the origin (shared with C18)."""
-    fx = run.fx
-    run.clause('every header line of a request survives parsing: the store into http_request::headers never overwrites an earlier line of the same name (shared with C18)')
-    pr = fx.fn1('sim::parse_request')
-    run.touch(pr)
-    absent = lambda g_: any(('find(' in q.render(pr, a_) and 'end()' in q.render(pr, a_)) or 'count(' in q.render(pr, a_) or '.empty()' in q.render(pr, a_) for a_, p_ in g_)
-    n = 0
-    for a in q.field_accesses(pr, {'sim::http_request::headers'}):
-        if a.kind == 'assign' and is_node(a.site):
-            n += 1
-            run.check(absent(q.guards_at(pr, a.site)), 'R9', 'header-lines-kept', 'sim::parse_request: ' + q.render(pr, a.site)[:60], pr.loc(a.site),
-                      'a header line is stored with headers[name] = value: a second line with the same field name replaces the first, so only the last of several Cookie / Accept / X-Forwarded-For lines is forwarded to the origin', 'stored without replacing an earlier line')
-        elif a.kind in ('read', 'method') and is_node(a.site) and a.site['k'] == 'decl':
-            # bound to a reference local: judged by what is done to the local
-            for v in a.site['vars']:
-                stores = [s_ for s_, r_ in q.local_defs(pr, v['did']) if s_['k'] != 'decl']
-                comp = [x for x in pr.all_nodes() if x['k'] == 'call' and x.get('opc') in ('+=',) and x.get('args') and is_node(q.strip_casts(x['args'][0])) and q.strip_casts(x['args'][0]).get('did') == v['did']]
-                comp += [x for x in pr.all_nodes() if x['k'] == 'call' and (q.callee_name(x) or '').split('::')[-1] in ('append', 'push_back') and is_node(x.get('obj')) and q.strip_casts(x['obj']).get('did') == v['did']]
-                n += 1
-                bad = [s_ for s_ in stores if not absent(q.guards_at(pr, s_))]
-                run.check(not bad and bool(comp or stores), 'R9', 'header-lines-kept', 'sim::parse_request: %s' % v.get('name'), pr.loc(bad[0]) if bad else pr.loc(a.site),
-                          'the header field bound to `%s` is assigned (not appended to) without a test that it is still empty: a repeated field name loses its earlier line' % v.get('name'), 'appended / folded')
-    if n < 1:
-        run.broke('parse_request: no store into http_request::headers found')
-
-
 def check(run):
     fx = run.fx
     run.clause('stop() reaches tcp::socket::close(error_code&) on the listen socket')
@@ -272,7 +243,6 @@ def check(run):
                       '0 <= start <= end <= size on every path to the generator call')
     if not found:
         run.broke('register_content: send_response/gen pair not found')
-    header_lines_kept_rule(run)
     run.clause('the Connection header is found when present: literal keys addressing the parsed header map are lower-case, as parse_request stores them (shared with C18)')
     nk = engines.header_keys_lowercase(run, [f_ for f_ in fx.repo_functions() if f_.file.endswith('http_server.cpp')])
     if nk < 1:
